@@ -118,7 +118,7 @@ func main() {
 		alpha  string
 		maxLen int
 	}
-	full := "abcdefghijklmnopqrstuvwxyzABCDEFGHIJKLMNOPQRSTUVWXYZ0123456789#- "
+	full := "abcdefghijklmnopqrstuvwxyzABCDEFGHIJKLMNOPQRSTUVWXYZ0123456789#- \n\r"
 	spaces := []space{{full, 4}}
 	if *tier == "thorough" {
 		spaces[0].maxLen = 5 // 65^5 = 1.16e9 strings
